@@ -449,6 +449,30 @@ def rule_globs(ck: Check, repo: Repo, folder: Folder) -> None:
     r.floor(1500 if ck.tier == "quick" else 20000, "legal dep5 globs examined", got=legal)
 
 
+def rule_parser_options(ck: Check, repo: Repo, rid: str = "R7") -> None:
+    """The same expression text must mean the same thing wherever it is read: header tags, REUSE.toml, dep5, the command
+    line.  Every call of the shared parser therefore carries the same options - a tokenizer switch (`simple=True`),
+    `validate=` or `strict=` at one site makes that source accept a different language than its siblings (a dep5
+    synopsis `GPL-2+ with OpenSSL exception` parses on the dep5 side and not after conversion)."""
+    r = ck.rule(rid, "every reader parses licence expressions with the same parser options")
+    sites = []
+    for fq, f in repo.functions.items():
+        for c in ast.walk(f):
+            if isinstance(c, ast.Call) and ast.unparse(c.func) == "_LICENSING.parse":
+                opts = sorted(f"{kw.arg}={ast.unparse(kw.value)}" for kw in c.keywords) + [f"arg{i}={ast.unparse(a)}" for i, a in enumerate(c.args[1:], 1)]
+                sites.append((fq, c, opts))
+            elif isinstance(c, ast.Call) and ast.unparse(c.func) == "map" and c.args and ast.unparse(c.args[0]) == "_LICENSING.parse":
+                sites.append((fq, c, []))
+    r.floor(4, "parser call sites", got=len(sites))
+    base = [] if any(not o for _, _, o in sites) else sites[0][2]
+    for fq, c, opts in sites:
+        r.instance(f"parse:{fq}", {"function": fq, "options": opts}, fq)
+        if opts != base:
+            r.violation(fq, f"the expression parser is called with {opts or 'no options'} here and with {base or 'no options'} elsewhere",
+                        "the readers no longer accept the same expression language: text that one source attributes to a file is a parse"
+                        " error (or another expression) in its sibling", repo.loc(c))
+
+
 def run(ck: Check, repo: Repo) -> None:
     ck.explanation = (
         "R1: decision/effect table of the convert-dep5 command (refusal before any effect; write before unlink)."
@@ -468,3 +492,4 @@ def run(ck: Check, repo: Repo) -> None:
     rule_order(ck, repo)
     rule_constants(ck, repo, folder)
     rule_globs(ck, repo, folder)
+    rule_parser_options(ck, repo)
